@@ -7,6 +7,7 @@ package main
 
 import (
 	"fmt"
+	"go/token"
 	"go/types"
 	"regexp"
 	"sort"
@@ -289,6 +290,26 @@ func (c *Ctx) rejectsEmptyArg(fn *ssa.Function) bool {
 		n++
 		guarded := false
 		for _, l := range P.BlockGuards(b) {
+			// the list built from the argument is not empty (its items are the non-empty parts of capture 1: an
+			// empty or missing argument leaves it empty)
+			if (l.Kind == "lt" && l.Pos) || (l.Kind == "eq" && !l.Pos) {
+				for _, pr := range [][2]ssa.Value{{l.X, l.Y}, {l.Y, l.X}} {
+					if cs, isC := pr[0].(*ssa.Const); isC && cs.Value != nil && cs.Value.ExactString() == "0" && (l.Kind == "eq" || pr[0] == l.X) {
+						if x := lenOf(pr[1]); x != nil && typeStr(x.Type()) == "[]string" {
+							elems, unknown := c.listElems(x)
+							okList := len(unknown) == 0 && len(elems) > 0
+							for _, e := range elems {
+								if c.splitItem(e, false) != "" {
+									okList = false
+								}
+							}
+							if okList {
+								guarded = true
+							}
+						}
+					}
+				}
+			}
 			if l.Kind != "eq" || l.Pos {
 				continue
 			}
@@ -710,9 +731,284 @@ func (c *Ctx) enclosingImmutableLit(l Lit, ps *parseSite) bool {
 	return !strings.Contains(d, "go/ast.Field.Doc") && (strings.Contains(d, "go/ast.TypeSpec.Doc") || strings.Contains(d, "go/ast.GenDecl.Doc"))
 }
 
-// rulePost: argument post-processing of list annotations: every item appended to the list is
+// listElem: one value that can become an element of a list, the instruction that adds it (an append call or a
+// slice literal) and the calling context (helpers entered on the way) in which both have to be read.
+type listElem struct {
+	Val  ssa.Value
+	At   ssa.Instruction
+	Pins pinMap
+}
+
+// listElems: every value that can be an element of slice value v - through slice literals, append (item by item
+// or spread), phis, local variables, parameters and product helpers that build and return the list. unknown lists
+// the origins that are none of these.
+func (c *Ctx) listElems(v ssa.Value) (elems []listElem, unknown []string) {
+	P := c.P
+	type key struct {
+		v ssa.Value
+		n int
+	}
+	seen := map[key]bool{}
+	var walk func(v ssa.Value, pins pinMap)
+	litElems := func(sl *ssa.Slice, at ssa.Instruction, pins pinMap) bool {
+		a, ok := sl.X.(*ssa.Alloc)
+		if !ok {
+			return false
+		}
+		if refs := a.Referrers(); refs != nil {
+			for _, rr := range *refs {
+				ia, ok := rr.(*ssa.IndexAddr)
+				if !ok {
+					continue
+				}
+				if irefs := ia.Referrers(); irefs != nil {
+					for _, st := range *irefs {
+						if s, ok := st.(*ssa.Store); ok && s.Addr == ia {
+							elems = append(elems, listElem{s.Val, at, pins})
+						}
+					}
+				}
+			}
+		}
+		return true
+	}
+	walk = func(v ssa.Value, pins pinMap) {
+		k := key{v, len(pins)}
+		if seen[k] {
+			return
+		}
+		seen[k] = true
+		switch x := v.(type) {
+		case *ssa.Const:
+		case *ssa.MakeSlice:
+		case *ssa.Phi:
+			for _, e := range x.Edges {
+				walk(e, pins)
+			}
+		case *ssa.ChangeType:
+			walk(x.X, pins)
+		case *ssa.Slice:
+			if !litElems(x, x, pins) {
+				walk(x.X, pins) // s[i:j] of a list: a subset of its elements
+			}
+		case *ssa.Parameter:
+			var args []ssa.Value
+			P.PinnedAll(pins, func() { args = P.paramArgs(x) })
+			if args == nil {
+				unknown = append(unknown, short(P.Desc(v)))
+				return
+			}
+			// the argument is read in the caller: leave the context of this function
+			outer := pinMap{}
+			for f, cs := range pins {
+				if f != x.Parent() {
+					outer[f] = cs
+				}
+			}
+			if len(outer) == 0 {
+				outer = nil
+			}
+			for _, a := range args {
+				walk(a, outer)
+			}
+		case *ssa.UnOp:
+			if x.Op == token.MUL {
+				if cell := P.cellOf(x.X); cell != nil {
+					if vals, _, escaped := P.CellStores(cell); !escaped {
+						for _, s := range vals {
+							walk(s, pins)
+						}
+						return
+					}
+				}
+			}
+			unknown = append(unknown, short(P.Desc(v)))
+		case *ssa.Extract:
+			if call, ok := x.Tuple.(*ssa.Call); ok {
+				if rets := P.helperReturns(call, x.Index); rets != nil {
+					np := pinMap{}
+					for f, cs := range pins {
+						np[f] = cs
+					}
+					np[call.Call.StaticCallee()] = call
+					for _, r := range rets {
+						walk(r, np)
+					}
+					return
+				}
+			}
+			unknown = append(unknown, short(P.Desc(v)))
+		case *ssa.Call:
+			if bi, isB := x.Call.Value.(*ssa.Builtin); isB && bi.Name() == "append" {
+				walk(x.Call.Args[0], pins)
+				if len(x.Call.Args) > 1 {
+					if sl, ok := x.Call.Args[1].(*ssa.Slice); ok && litElems(sl, x, pins) {
+						return
+					}
+					walk(x.Call.Args[1], pins) // append(list, other...)
+				}
+				return
+			}
+			if rets := P.helperReturns(x, 0); rets != nil {
+				np := pinMap{}
+				for f, cs := range pins {
+					np[f] = cs
+				}
+				np[x.Call.StaticCallee()] = x
+				for _, r := range rets {
+					walk(r, np)
+				}
+				return
+			}
+			unknown = append(unknown, short(P.Desc(v)))
+		default:
+			unknown = append(unknown, short(P.Desc(v)))
+		}
+	}
+	walk(v, nil)
+	return
+}
+
+// listAlways: on every way list value v can be built, it contains an element satisfying pred.
+func (c *Ctx) listAlways(v ssa.Value, pred func(e ssa.Value) bool, depth int) bool {
+	P := c.P
+	if depth > 12 {
+		return false
+	}
+	switch x := v.(type) {
+	case *ssa.Phi:
+		// a loop-carried list: the element is there if it is there on every way into the loop (coinductive)
+		if c.listBusy[x] {
+			return true
+		}
+		if c.listBusy == nil {
+			c.listBusy = map[*ssa.Phi]bool{}
+		}
+		c.listBusy[x] = true
+		defer delete(c.listBusy, x)
+		for _, e := range x.Edges {
+			if !c.listAlways(e, pred, depth+1) {
+				return false
+			}
+		}
+		return len(x.Edges) > 0
+	case *ssa.Slice:
+		for _, e := range c.sliceLitElems(x) {
+			if pred(e) {
+				return true
+			}
+		}
+		return false
+	case *ssa.UnOp:
+		if x.Op == token.MUL {
+			if cell := P.cellOf(x.X); cell != nil {
+				if vals, _, escaped := P.CellStores(cell); !escaped && len(vals) > 0 {
+					for _, s := range vals {
+						if !c.listAlways(s, pred, depth+1) {
+							return false
+						}
+					}
+					return true
+				}
+			}
+		}
+	case *ssa.Call:
+		if bi, isB := x.Call.Value.(*ssa.Builtin); isB && bi.Name() == "append" {
+			if c.listAlways(x.Call.Args[0], pred, depth+1) {
+				return true
+			}
+			return len(x.Call.Args) > 1 && c.listAlways(x.Call.Args[1], pred, depth+1)
+		}
+		if rets := P.helperReturns(x, 0); rets != nil {
+			ok := true
+			P.PinnedAll(pinMap{x.Call.StaticCallee(): x}, func() {
+				for _, r := range rets {
+					if !c.listAlways(r, pred, depth+1) {
+						ok = false
+					}
+				}
+			})
+			return ok
+		}
+	}
+	return false
+}
+
+// splitItem judges one list element: (upper-cased) strings.TrimSpace(part) where part ranges over
+// strings.Split(<capture group 1>, ","), added only under `item != ""`. Returns "" or what is wrong.
+func (c *Ctx) splitItem(e listElem, wantUpper bool) (bad string) {
+	P := c.P
+	P.PinnedAll(e.Pins, func() {
+		v := e.Val
+		upper := false
+		if u := P.CallTo(firstRoot(P, v), "strings.ToUpper"); u != nil {
+			upper = true
+			v = u.Call.Args[0]
+		}
+		ts := P.CallTo(firstRoot(P, v), "strings.TrimSpace")
+		if ts == nil {
+			bad = "list item is not strings.TrimSpace(<split part>): " + short(P.Desc(e.Val))
+			return
+		}
+		part := ts.Call.Args[0]
+		okSplit := P.RootsAll(part, func(r ssa.Value) bool {
+			u, ok := r.(*ssa.UnOp)
+			if !ok {
+				return false
+			}
+			ia, ok := u.X.(*ssa.IndexAddr)
+			if !ok || !(isRangeIndex(ia.Index) || isFullIndexLoopOver(ia.Index, ia.X)) {
+				return false
+			}
+			return P.RootsAll(ia.X, func(s ssa.Value) bool {
+				sp := P.CallTo(s, "strings.Split")
+				if sp == nil || constString(sp.Call.Args[1]) != "," {
+					return false
+				}
+				d := P.Desc(sp.Call.Args[0])
+				return strings.Contains(d, "elem[1](call((*regexp.Regexp).FindStringSubmatch") && !strings.HasPrefix(d, "{")
+			})
+		})
+		if !okSplit {
+			bad = "list item is not an element of range strings.Split(<capture group 1>, \",\"): " + short(P.Desc(part))
+			return
+		}
+		dropEmpty := false
+		for _, l := range P.BlockGuards(e.At.Block()) {
+			if l.Kind == "eq" && !l.Pos {
+				for _, pr := range [][2]ssa.Value{{l.X, l.Y}, {l.Y, l.X}} {
+					if cs, isC := pr[0].(*ssa.Const); isC && cs.Value != nil && cs.Value.ExactString() == `""` && P.Desc(pr[1]) == P.Desc(ts) {
+						dropEmpty = true
+					}
+				}
+			}
+			// len(item) > 0 / len(item) != 0
+			if (l.Kind == "lt" && l.Pos) || (l.Kind == "eq" && !l.Pos) {
+				for _, pr := range [][2]ssa.Value{{l.X, l.Y}, {l.Y, l.X}} {
+					if cs, isC := pr[0].(*ssa.Const); isC && cs.Value != nil && cs.Value.ExactString() == "0" {
+						if x := lenOf(pr[1]); x != nil && P.Desc(x) == P.Desc(ts) && (l.Kind == "eq" || pr[0] == l.X) {
+							dropEmpty = true
+						}
+					}
+				}
+			}
+		}
+		switch {
+		case !dropEmpty:
+			bad = "empty list items are not dropped (no `item != \"\"` guard on the trimmed item)"
+		case wantUpper && !upper:
+			bad = "UPPER: @ignore codes are not upper-cased (codes must match case-insensitively)"
+		case !wantUpper && upper:
+			bad = "list item is upper-cased although names/paths are case-sensitive"
+		}
+	})
+	return
+}
+
+// rulePost: argument post-processing of list annotations: every element of a []string field of the result is
 // TrimSpace(element of Split(<capture 1>, ",")), empty items are dropped, @ignore codes are upper-cased;
-// @packageonly always contains the declaring package's path (SELF-ALLOWED).
+// @packageonly always contains the declaring package's path (SELF-ALLOWED). The list may be built in place or by
+// a helper.
 func (c *Ctx) rulePost(keywords ...string) {
 	P := c.P
 	byKw := c.regexKeywords()
@@ -723,106 +1019,8 @@ func (c *Ctx) rulePost(keywords ...string) {
 		}
 		fn := ps.Parse
 		name := FuncName(fn)
-		nApp := 0
-		sawSelf := false
-		allInstrs(fn, func(b *ssa.BasicBlock, ins ssa.Instruction) {
-			call, ok := ins.(*ssa.Call)
-			if !ok {
-				return
-			}
-			bi, ok := call.Call.Value.(*ssa.Builtin)
-			if !ok || bi.Name() != "append" || len(call.Call.Args) != 2 {
-				return
-			}
-			if typeStr(call.Type()) != "[]string" {
-				return
-			}
-			// appended elements: stores into the varargs array
-			for _, e := range c.sliceLitElems(call.Call.Args[1]) {
-				nApp++
-				cons := fmt.Sprintf("%s#item%d", name, nApp)
-				where := P.Pos(call.Pos())
-				v := e
-				upper := false
-				if u := P.CallTo(firstRoot(P, v), "strings.ToUpper"); u != nil {
-					upper = true
-					v = u.Call.Args[0]
-				}
-				ts := P.CallTo(firstRoot(P, v), "strings.TrimSpace")
-				if ts == nil {
-					c.fail("POST/ITEM", cons, where, "list item is not strings.TrimSpace(<split part>): "+short(P.Desc(e)))
-					continue
-				}
-				part := ts.Call.Args[0]
-				okSplit := P.RootsAll(part, func(r ssa.Value) bool {
-					u, ok := r.(*ssa.UnOp)
-					if !ok {
-						return false
-					}
-					ia, ok := u.X.(*ssa.IndexAddr)
-					if !ok || !isRangeIndex(ia.Index) {
-						return false
-					}
-					return P.RootsAll(ia.X, func(s ssa.Value) bool {
-						sp := P.CallTo(s, "strings.Split")
-						if sp == nil || constString(sp.Call.Args[1]) != "," {
-							return false
-						}
-						d := P.Desc(sp.Call.Args[0])
-						return strings.Contains(d, "elem[1](call((*regexp.Regexp).FindStringSubmatch")
-					})
-				})
-				if !okSplit {
-					c.fail("POST/ITEM", cons, where, "list item is not an element of range strings.Split(<capture group 1>, \",\"): "+short(P.Desc(part)))
-					continue
-				}
-				// empty items dropped
-				dropEmpty := false
-				for _, l := range P.BlockGuards(b) {
-					if l.Kind == "eq" && !l.Pos {
-						for _, pr := range [][2]ssa.Value{{l.X, l.Y}, {l.Y, l.X}} {
-							if cs, isC := pr[0].(*ssa.Const); isC && cs.Value != nil && cs.Value.ExactString() == `""` && P.Desc(pr[1]) == P.Desc(ts) {
-								dropEmpty = true
-							}
-						}
-					}
-				}
-				if !dropEmpty {
-					c.fail("POST/ITEM", cons, where, "empty list items are not dropped (no `item != \"\"` guard on the trimmed item)")
-					continue
-				}
-				if kw == "@ignore" && !upper {
-					c.fail("POST/UPPER", cons, where, "@ignore codes are not upper-cased (codes must match case-insensitively)")
-					continue
-				}
-				if kw != "@ignore" && upper {
-					c.fail("POST/ITEM", cons, where, "list item is upper-cased although names/paths are case-sensitive")
-					continue
-				}
-				c.ok("POST/ITEM", cons, where, "TrimSpace(part of Split(group1, \",\")), empty dropped"+map[bool]string{true: ", upper-cased", false: ""}[upper])
-			}
-		})
-		if kw == "@packageonly" {
-			// the allow list starts with the declaring package: a []string literal containing the currentPkgPath parameter
-			allInstrs(fn, func(b *ssa.BasicBlock, ins ssa.Instruction) {
-				sl, ok := ins.(*ssa.Slice)
-				if !ok || typeStr(sl.Type()) != "[]string" {
-					return
-				}
-				for _, e := range c.sliceLitElems(sl) {
-					if P.isPassPkgCall(e, "Path") {
-						sawSelf = true
-					}
-				}
-			})
-			// and that list is what every non-nil result carries (no reassignment that drops it)
-			selfOK := sawSelf
-			if selfOK {
-				selfOK = c.allowedStartsWithSelf(fn)
-			}
-			c.check(selfOK, "POST/SELF-ALLOWED", name, P.Pos(fn.Pos()), "AllowedPackages of every result starts from []string{pass.Pkg.Path()}", "the declaring package's own path is not (always) part of AllowedPackages: a bare @packageonly would forbid the declaring package or allow nothing")
-		}
-		// the []string field of the result is built only by those appends (from an empty or literal slice)
+		nItems := 0
+		isSelf := func(e ssa.Value) bool { return P.isPassPkgCall(e, "Path") }
 		allInstrs(fn, func(b *ssa.BasicBlock, ins ssa.Instruction) {
 			st, isS := ins.(*ssa.Store)
 			if !isS || typeStr(st.Val.Type()) != "[]string" {
@@ -833,40 +1031,33 @@ func (c *Ctx) rulePost(keywords ...string) {
 				return
 			}
 			fld := deref(fa.X.Type()).Underlying().(*types.Struct).Field(fa.Field).Name()
-			seen := map[ssa.Value]bool{}
-			var bad []string
-			var walk func(v ssa.Value)
-			walk = func(v ssa.Value) {
-				if seen[v] {
-					return
+			elems, unknown := c.listElems(st.Val)
+			c.check(len(unknown) == 0, "POST/LIST-ORIGIN", name+"#"+fld, P.Pos(st.Pos()), "list is built item by item from the split capture group",
+				"list field "+fld+" is not built from TrimSpace'd parts of strings.Split(<capture 1>, \",\") (the regex separator \\s*,\\s* allows any white space around commas): "+strings.Join(unknown, "; "))
+			for _, e := range elems {
+				self := false
+				P.PinnedAll(e.Pins, func() { self = isSelf(e.Val) })
+				if kw == "@packageonly" && self {
+					continue
 				}
-				seen[v] = true
-				switch x := v.(type) {
-				case *ssa.Phi:
-					for _, e := range x.Edges {
-						walk(e)
-					}
-				case *ssa.Const:
-				case *ssa.Slice:
-					if _, isA := x.X.(*ssa.Alloc); !isA {
-						bad = append(bad, short(P.Desc(v)))
-					}
-				case *ssa.Call:
-					if bi, isB := x.Call.Value.(*ssa.Builtin); isB && bi.Name() == "append" {
-						walk(x.Call.Args[0])
-						return
-					}
-					bad = append(bad, short(P.Desc(v)))
+				nItems++
+				cons := fmt.Sprintf("%s#%s/item%d", name, fld, nItems)
+				where := P.Pos(e.At.Pos())
+				bad := c.splitItem(e, kw == "@ignore")
+				switch {
+				case bad == "":
+					c.ok("POST/ITEM", cons, where, "TrimSpace(part of Split(group1, \",\")), empty dropped"+map[bool]string{true: ", upper-cased", false: ""}[kw == "@ignore"])
+				case strings.HasPrefix(bad, "UPPER: "):
+					c.fail("POST/UPPER", cons, where, strings.TrimPrefix(bad, "UPPER: "))
 				default:
-					bad = append(bad, short(P.Desc(v)))
+					c.fail("POST/ITEM", cons, where, bad)
 				}
 			}
-			walk(st.Val)
-			c.check(len(bad) == 0, "POST/LIST-ORIGIN", name+"#"+fld, P.Pos(st.Pos()), "list is built item by item from the split capture group",
-				"list field "+fld+" is not built from TrimSpace'd parts of strings.Split(<capture 1>, \",\") (the regex separator \\s*,\\s* allows any white space around commas): "+strings.Join(bad, "; "))
+			if kw == "@packageonly" {
+				c.check(c.listAlways(st.Val, isSelf, 0), "POST/SELF-ALLOWED", name, P.Pos(st.Pos()), "AllowedPackages of every result starts from []string{pass.Pkg.Path()}", "the declaring package's own path is not (always) part of AllowedPackages: a bare @packageonly would forbid the declaring package or allow nothing")
+			}
 		})
-		min := 1
-		c.floor("list items appended in "+name, nApp, min)
+		c.floor("list items appended in "+name, nItems, 1)
 	}
 }
 
@@ -897,64 +1088,4 @@ func (c *Ctx) sliceLitElems(v ssa.Value) []ssa.Value {
 		}
 	}
 	return out
-}
-
-// allowedStartsWithSelf: the AllowedPackages field of every PackageOnlyAnnotation literal originates (through
-// appends) from the slice literal that contains pass.Pkg.Path().
-func (c *Ctx) allowedStartsWithSelf(fn *ssa.Function) bool {
-	P := c.P
-	ok := false
-	bad := false
-	allInstrs(fn, func(b *ssa.BasicBlock, ins ssa.Instruction) {
-		st, isS := ins.(*ssa.Store)
-		if !isS {
-			return
-		}
-		fa, isF := st.Addr.(*ssa.FieldAddr)
-		if !isF || typeStr(deref(fa.X.Type())) != "annotations.PackageOnlyAnnotation" {
-			return
-		}
-		if deref(fa.X.Type()).Underlying().(*types.Struct).Field(fa.Field).Name() != "AllowedPackages" {
-			return
-		}
-		// walk back through append chains / phis to base slices
-		seen := map[ssa.Value]bool{}
-		var bases []ssa.Value
-		var walk func(v ssa.Value)
-		walk = func(v ssa.Value) {
-			if seen[v] {
-				return
-			}
-			seen[v] = true
-			switch x := v.(type) {
-			case *ssa.Phi:
-				for _, e := range x.Edges {
-					walk(e)
-				}
-			case *ssa.Call:
-				if bi, isB := x.Call.Value.(*ssa.Builtin); isB && bi.Name() == "append" {
-					walk(x.Call.Args[0])
-					return
-				}
-				bases = append(bases, v)
-			default:
-				bases = append(bases, v)
-			}
-		}
-		walk(st.Val)
-		for _, base := range bases {
-			has := false
-			for _, e := range c.sliceLitElems(base) {
-				if P.isPassPkgCall(e, "Path") {
-					has = true
-				}
-			}
-			if has {
-				ok = true
-			} else {
-				bad = true
-			}
-		}
-	})
-	return ok && !bad
 }
